@@ -344,6 +344,16 @@ def catalogue_case(run, entry, cfg, rnd, stats):
     vecs = extreme_vectors(widths, rnd)
     case = dict(workload='catalogue', block=entry.name, cfg=netgen.cfg_json(cfg), vectors=[list(v) for v in vecs])
     pv = observe(run, make, vecs, case, stats, '%s%r' % (entry.name, cfg))
+    if pv is not None:
+        # configuration classes of the catalogue: designs actually observed, and those where the result wire is narrower than an operand
+        # driven all-ones / MSB-only (where a missing mask on a parameter-dependent path shows)
+        ow = [sig['pins'][k][1] for k in sig['outs']]
+        for k in catalog.classify(entry.name, cfg):
+            stats['catalogue_class_%s_designs' % k] = stats.get('catalogue_class_%s_designs' % k, 0) + 1
+            if widths and ow and min(ow) < max(widths):
+                stats['catalogue_class_%s_designs_result_narrower' % k] = stats.get('catalogue_class_%s_designs_result_narrower' % k, 0) + 1
+            if cfg in entry.range_only:
+                stats['catalogue_class_%s_designs_range_only' % k] = stats.get('catalogue_class_%s_designs_range_only' % k, 0) + 1
     by = stats.setdefault('per_block', {})
     by[entry.name] = by.get(entry.name, 0) + 1
     if pv:
@@ -679,12 +689,19 @@ def run_check(run, tier, seed, shard):
     work = []
     for e in catalog.ENTRIES:
         cfgs = e.configs(tier)
+        # the named boundary families of the catalogue (constant parameter at {0, 1, w-1, w, ...} x result wire narrower / equal / wider,
+        # control wires wider than one bit) are never sampled away; configurations whose value nothing defines (range_only) are
+        # still subject to the range invariant
+        keep = [c for c in e.keep if c in cfgs]
         if quick:
             rnd = rng(seed, 'C06', 'pick', e.name)
             cap = 60
-            if len(cfgs) > cap:
-                idx = sorted(set([0, len(cfgs) - 1] + rnd.sample(range(len(cfgs)), cap - 2)))
-                cfgs = [cfgs[i] for i in idx]
+            rest = [c for c in cfgs if c not in keep]
+            if len(rest) > cap:
+                idx = sorted(set([0, len(rest) - 1] + rnd.sample(range(len(rest)), cap - 2)))
+                rest = [rest[i] for i in idx]
+            cfgs = rest + keep
+        cfgs = list(cfgs) + list(e.range_only)
         work += [(e, c) for c in cfgs]
     for j in shard_slice(range(len(work)), shard):
         if time.time() - t0 > budget * 0.7 or run.too_many:
@@ -732,6 +749,8 @@ def post_merge(run, tier, seed):
                    ('nonint_stimuli', 'no non-integer stimulus was offered to a wire'), ('nonint_refused', 'no non-integer was refused (nothing decided about them)'),
                    ('waveform_clears', 'no Waveform was cleared in mid-run'),
                    ('waveform_samples_compared', 'no Waveform sample was compared with the live wire'),
+                   ('catalogue_class_param_boundary_designs_result_narrower', 'no constant-parameter boundary configuration with a narrower result wire was observed'),
+                   ('catalogue_class_wide_control_designs', 'no configuration with a control wire wider than one bit was observed'),
                    ('watch_repeated_wires', 'no Waveform watch list with a repeated wire'), ('watch_ports_of_listed_wires', 'no watch list with a wire and one of its ports')):
         if not c.get(k):
             run.inconclusive.append(why)
